@@ -125,8 +125,8 @@ func (f fixedRef[T]) fn1(name string, x any) (any, bool, bool) {
 		return fl(math.Log)
 	case "log10":
 		return fl(math.Log10)
-	case "log1p": // log(x + 1), as for the floating-point evaluators
-		return f64.From[T](math.Log(f64.As[T, float64](v + f64.Int[T](m)))), false, true
+	case "log1p":
+		return fl(math.Log1p)
 	}
 	return nil, false, false
 }
@@ -208,9 +208,8 @@ func (floatRef[T]) fn1(name string, x any) (any, bool, bool) {
 		return T(math.Log(v)), false, true
 	case "log10":
 		return T(math.Log10(v)), false, true
-	case "log1p": // the library's log1p is log(x + 1) with the sum rounded to the evaluator's type (not math.Log1p: for
-		// |x| << 1 the two differ by far more than rounding, e.g. log1p(1e-15) = 1.11e-15) — mirrored here
-		return T(math.Log(float64(x.(T) + 1))), false, true
+	case "log1p":
+		return T(math.Log1p(v)), false, true
 	}
 	return nil, false, false
 }
